@@ -20,6 +20,8 @@ def write_cases(ctx, cases, name):
         for c in cases:
             if isinstance(c.get('pol'), list):      # the empty function <<>> leaves TLC as []
                 c = dict(c, pol={})
+            if c.get('tree'):
+                c = dict(c, tree=[dict(n, pol={}) if isinstance(n.get('pol'), list) else n for n in c['tree']])
             f.write(json.dumps(c) + '\n')
     return p
 
